@@ -7,6 +7,7 @@ import (
 	"os"
 	"path/filepath"
 	"reflect"
+	"strconv"
 	"strings"
 	"time"
 
@@ -56,6 +57,10 @@ func historyExtra(c *core.Ctx, tc *tcase, v reflect.Value, data []byte) map[stri
 }
 
 func roundTripCase(c *core.Ctx, idx int, mode int) {
+	if idx%509 == 9 {
+		bigContainers(c, idx, mode)
+		return
+	}
 	tc := genType(c, idx, nil)
 	rec := c.Rec
 	var cerr error
@@ -92,6 +97,12 @@ func roundTripCase(c *core.Ctx, idx int, mode int) {
 					}
 				}
 			}
+		}
+		if j == 2 {
+			describe(tc.p, tc.typ)
+		}
+		if j == 5 {
+			describe(sharedInst(tc), tc.typ)
 		}
 		data, err, pn := marshal(tc.p, nil, ptrTo(v))
 		if pn != "" {
@@ -151,11 +162,12 @@ func roundTripCase(c *core.Ctx, idx int, mode int) {
 	}
 }
 
-// sizedBodies pads a string or []byte field of struct value v until v's encoding is exactly 127,
-// 128, 129, 16383, 16384 or 16385 bytes long (the edges of the 1-, 2- and 3-byte length prefixes;
-// the thorough tier adds 2^21-1..2^21+1 now and then) and nests the value as a field, pointer
-// target, slice element and map value, so that a length prefix of exactly that size is written
-// and read at every kind of nesting.
+// sizedBodies pads a string or []byte field of struct value v until v's encoding is exactly b-12..b+1
+// bytes long for b = 128 and 16384 (the edges of the 1-, 2- and 3-byte length prefixes; the
+// thorough tier adds 2^21 now and then) and nests the value as a field, pointer target, slice
+// element and map value of a struct that is itself a field of an outer struct, so that length
+// prefixes of exactly boundary size are written and read for the body and for the frames around it
+// at every kind of nesting.
 func sizedBodies(c *core.Ctx, idx int, tc *tcase, v reflect.Value, mode int) {
 	rec := c.Rec
 	var fld *model.FieldInfo
@@ -178,9 +190,17 @@ func sizedBodies(c *core.Ctx, idx int, tc *tcase, v reflect.Value, mode int) {
 			nv.Field(fld.GoIndex).SetBytes(bytes.Repeat([]byte{'b'}, n))
 		}
 	}
-	targets := []int{127, 128, 129, 16383, 16384, 16385}
+	// the body sizes around each boundary, so that the frames around the body (map entry, element,
+	// the enclosing struct with its other fields) land on the boundary as well
+	var targets []int
+	bounds := []int{128, 16384}
 	if c.Thorough() && idx%64 == 5 {
-		targets = append(targets, 1<<21-1, 1<<21, 1<<21+1)
+		bounds = append(bounds, 1<<21)
+	}
+	for _, b := range bounds {
+		for d := -12; d <= 1; d++ {
+			targets = append(targets, b+d)
+		}
 	}
 	sf := func(name string, t reflect.Type, tag string) reflect.StructField {
 		return reflect.StructField{Name: name, Type: t, Tag: reflect.StructTag(tag)}
@@ -218,10 +238,17 @@ func sizedBodies(c *core.Ctx, idx int, tc *tcase, v reflect.Value, mode int) {
 			if tc.cfg.Validate(wt, "") != "" {
 				continue
 			}
+			iv := reflect.New(wt).Elem()
+			iv.Field(1).Set(w.val)
+			if target%2 == 0 {
+				iv.Field(0).SetInt(-1)
+				iv.Field(2).SetString("end")
+			}
+			// once more inside an outer struct: the size the wrapper reports becomes a length prefix
+			wt = reflect.StructOf([]reflect.StructField{sf("I", wt, `plenc:"1"`), sf("J", reflect.TypeOf(false), `plenc:"2"`)})
 			wv := reflect.New(wt).Elem()
-			wv.Field(0).SetInt(-1)
-			wv.Field(1).Set(w.val)
-			wv.Field(2).SetString("end")
+			wv.Field(0).Set(iv)
+			wv.Field(1).SetBool(true)
 			what := fmt.Sprintf("a %d-byte body nested as %s [%s]\n  body type %s", target, w.name, tc.name, typeString(tc.typ))
 			data, err, pn := marshal(tc.p, nil, ptrTo(wv))
 			rec.Eval(1)
@@ -256,6 +283,107 @@ func sizedBodies(c *core.Ctx, idx int, tc *tcase, v reflect.Value, mode int) {
 			rec.Count("sized_bodies", 1)
 			rec.Distinct("sized_body_kinds", core.Hash64(fmt.Sprint(target), w.name))
 		}
+	}
+}
+
+type bigElem struct {
+	A int32  `plenc:"1"`
+	B string `plenc:"2"`
+}
+
+// bigContainers round-trips containers with 70 thousand to 1.2 million entries of every element
+// family (the decoders grow, pre-size and cap their allocations by rules of their own, none of
+// which a few dozen elements ever reach), as a plain and as a proto-tagged field.
+func bigContainers(c *core.Ctx, idx int, mode int) {
+	rec := c.Rec
+	k := idx / 509
+	fam := k % 7
+	n := []int{600011, 1200017, 300007, 70001}[(k/7)%4]
+	cfg := instCfgs()[k%4]
+	var val reflect.Value
+	switch fam {
+	case 0:
+		s := make([]string, n)
+		for i := range s {
+			s[i] = strconv.Itoa(i)
+		}
+		val = reflect.ValueOf(s)
+	case 1:
+		s := make([]bigElem, n)
+		for i := range s {
+			s[i] = bigElem{A: int32(i), B: "e"}
+		}
+		val = reflect.ValueOf(s)
+	case 2:
+		s := make([]*bigElem, n)
+		for i := range s {
+			s[i] = &bigElem{A: int32(i + 1)}
+		}
+		val = reflect.ValueOf(s)
+	case 3:
+		s := make([][]byte, n)
+		for i := range s {
+			s[i] = []byte{byte(i), byte(i >> 8), byte(i >> 16), 0x80}
+		}
+		val = reflect.ValueOf(s)
+	case 4:
+		s := make([]time.Time, n)
+		for i := range s {
+			s[i] = time.Unix(int64(i), int64(i%1000)).UTC()
+		}
+		val = reflect.ValueOf(s)
+	case 5:
+		s := make([][]int32, n)
+		for i := range s {
+			s[i] = []int32{int32(i), -1}
+		}
+		val = reflect.ValueOf(s)
+	default:
+		m := make(map[int32]string, n)
+		for i := 0; i < n; i++ {
+			m[int32(i)] = "v"
+		}
+		val = reflect.ValueOf(m)
+	}
+	for _, opt := range []string{"", ",proto"} {
+		ht := reflect.StructOf([]reflect.StructField{{Name: "N", Type: reflect.TypeOf(int32(0)), Tag: `plenc:"1"`}, {Name: "X", Type: val.Type(), Tag: reflect.StructTag(`plenc:"2` + opt + `"`)}, {Name: "Z", Type: reflect.TypeOf(""), Tag: `plenc:"3"`}})
+		if cfg.Validate(ht, "") != "" {
+			continue
+		}
+		hv := reflect.New(ht).Elem()
+		hv.Field(0).SetInt(7)
+		hv.Field(1).Set(val)
+		hv.Field(2).SetString("end")
+		p := instNew(cfg)
+		what := fmt.Sprintf("%s with %d entries in a field tagged `2%s` [%s]", val.Type(), n, opt, cfgName(cfg))
+		data, err, pn := marshal(p, nil, hv.Addr().Interface())
+		rec.Eval(1)
+		if err != nil || pn != "" {
+			rec.Violation("big-container", fmt.Sprintf("Marshal of %s: %v %s", what, err, trunc1(pn)), nil)
+			return
+		}
+		if mode == modeC02 && val.Kind() != reflect.Map {
+			if want := cfg.Encode(hv); !bytes.Equal(data, want) {
+				k := 0
+				for k < len(data) && k < len(want) && data[k] == want[k] {
+					k++
+				}
+				rec.Violation("big-container", fmt.Sprintf("the encoding of %s differs from the documented format at byte %d of %d (want %d bytes)", what, k, len(data), len(want)), nil)
+				return
+			}
+		}
+		out := reflect.New(ht)
+		if err, pn := unmarshal(p, data, out.Interface()); err != nil || pn != "" {
+			rec.Violation("big-container", fmt.Sprintf("Unmarshal of %s (%d bytes): %v %s", what, len(data), err, trunc1(pn)), nil)
+			return
+		}
+		if d := model.Diff(hv, out.Elem(), "$"); d != "" {
+			rec.Violation("big-container", fmt.Sprintf("%s does not round-trip: %s", what, d), nil)
+			return
+		}
+		rec.Count("big_containers", 1)
+		rec.Max("big_container_entries", float64(n))
+		rec.NonTrivial(core.Hash64("big", val.Type().String(), opt, fmt.Sprint(n), cfgName(cfg)))
 	}
 }
 
